@@ -144,9 +144,10 @@ func lexSpec(src string) ([]tok, error) {
 }
 
 type sparser struct {
-	ts  []tok
-	p   int
-	src string
+	ts   []tok
+	p    int
+	src  string
+	noIn bool // parsing the value of `let x = v in ...`: `in` ends the value
 }
 
 func parseSpecExpr(src string) (e SExpr, err error) {
@@ -245,7 +246,7 @@ func (p *sparser) cmp() SExpr {
 			x = &SBinary{t.s, x, y}
 			continue
 		}
-		if t.k == "id" && t.s == "in" {
+		if t.k == "id" && t.s == "in" && !p.noIn {
 			p.p++
 			y := p.add()
 			x = &SBinary{"in", x, y}
@@ -408,7 +409,10 @@ func (p *sparser) primary() SExpr {
 		case "let":
 			n := p.next()
 			p.expectOp("=")
+			saved := p.noIn
+			p.noIn = true
 			v := p.expr()
+			p.noIn = saved
 			if !p.isID("in") {
 				p.fail("expected 'in' in let")
 			}
@@ -419,7 +423,10 @@ func (p *sparser) primary() SExpr {
 		return &SIdent{t.s}
 	case "op":
 		if t.s == "(" {
+			saved := p.noIn
+			p.noIn = false
 			e := p.expr()
+			p.noIn = saved
 			p.expectOp(")")
 			return e
 		}
